@@ -67,7 +67,7 @@ def mk_replay(kind):
             stored = parse_sql(sql, 'mindsdb').query_str
         except Exception as e:  # noqa
             return False, {'sql': sql, 'error': repr(e)}, 'embedded-lexeme:%s:unparsable' % kind, 'n/a'
-        bad = strip_ws(stored) != strip_ws(inner)
+        bad = strip_ws(stored) != strip_ws(inner) or (s not in stored)
         return bad, {'sql': sql, 'stored': stored}, 'embedded-lexeme:%s' % kind, 'CREATE VIEW stores %r for %r' % (stored, inner)
     return replay
 
